@@ -88,6 +88,10 @@ func docs() []doc {
 		{name: "d6''-counter-style-undefined", html: prelude + `<style>li{list-style:z inside} body{hyphens:auto}</style><ol><li>aa<li>bb<li>cc</ol><p lang="en" style="width:60px">hyphenation extraordinary</p>`},
 		{name: "d7''-img-missing", html: imgDoc, fetcher: fixedFetcher(map[string][]byte{}, map[string]string{})},
 		{name: "d8''-font-face-undefined", html: prelude + `<style>p{font-family:ff,ahem} div{font-family:ff,ahem;width:10ex;height:2ch;background:lime}</style><p>ab cd</p><p>ef</p><div></div>`, fresh: true},
+		// SVG text with font properties of its own, and a document that relies on the INITIAL font properties (no font
+		// size on the root): anything the first leaves in process-wide tables shows in the second
+		{name: "d13-svg-text-fonts", html: prelude + `<p>ab <svg xmlns="http://www.w3.org/2000/svg" width="60" height="30"><text x="2" y="20" font-family="ahem" font-size="12" font-weight="bold" font-style="italic">cd</text><text x="30" y="20" font-size="7">ef</text></svg></p>`},
+		{name: "d13''-initial-font-properties", html: `<style>@page{size:200px 80px;margin:5px} html,body{margin:0} p{font-family:ahem;margin:0} div{width:2em;height:1rem;background:lime}</style><p>ab cd</p><div></div><p style="font-size:initial;font-weight:initial">ef</p>`},
 		// state that painting could leave in the rendered Document: crop marks (a layer added at paint time), several background layers
 		{name: "d12-marks-bleed-layers", html: `<style>@page{size:100px 60px;margin:5px;marks:crop cross;bleed:6px;background:linear-gradient(red,blue) 0 0/80px 50px no-repeat, linear-gradient(lime,green) 0 0/20px 20px no-repeat yellow} html,body{margin:0;font-family:ahem;font-size:10px;line-height:1} div{height:20px;background:linear-gradient(red,blue) 0 0/30px 10px no-repeat, linear-gradient(lime,green) 0 0/10px 20px no-repeat border-box silver;border:2px solid}</style><div>ab</div><p style="break-before:page">cd</p>`},
 	}
